@@ -10,11 +10,12 @@ SYSTEM_FLAGS = ['\\Seen', '\\Answered', '\\Flagged', '\\Deleted', '\\Draft']
 USER = {'name': 'user', 'password': 'pass'}
 USER2 = {'name': 'other', 'password': 'secret2'}
 
-BUGGIFY_KINDS = ['lock_yield', 'drain_yield', 'weakset']
+BUGGIFY_KINDS = ['lock_yield', 'drain_yield', 'weakset', 'lock_stall']
 
 
 def pick_buggify(rng: random.Random, kinds=BUGGIFY_KINDS) -> list[str]:
-    return [k for k in kinds if rng.random() < 0.5]
+    return [k for k in kinds
+            if rng.random() < (0.25 if k == 'lock_stall' else 0.5)]
 
 
 def seq_set(rng: random.Random, maxn: int = 8) -> str:
